@@ -585,9 +585,19 @@ func (o *operation) handle() {
 	if serverRequestBuilder != nil {
 		var hasBody bool
 		var err error
-		o.request.URL.Path, o.request.URL.RawQuery, o.request.Method, hasBody, err =
+		var escapedPath string
+		escapedPath, o.request.URL.RawQuery, o.request.Method, hasBody, err =
 			serverRequestBuilder.requestLine(o, reqMsg.msg)
 		if err != nil {
+			o.reportError(err)
+			return
+		}
+		// The request line is built in escaped form. URL.Path holds the decoded
+		// path and RawPath the escaped one, like for a URL that was parsed: with
+		// the escaped text in Path, the path would be escaped a second time when
+		// the URL is written out, and handlers would see "%20" for a space.
+		o.request.URL.RawPath = escapedPath
+		if o.request.URL.Path, err = url.PathUnescape(escapedPath); err != nil {
 			o.reportError(err)
 			return
 		}
@@ -600,6 +610,7 @@ func (o *operation) handle() {
 	} else {
 		// if no request line builder, use simple request layout
 		o.request.URL.Path = o.methodConf.methodPath
+		o.request.URL.RawPath = ""
 		o.request.URL.RawQuery = ""
 		o.request.Method = http.MethodPost
 	}
